@@ -53,6 +53,15 @@ def keyOf : LOp → Option Spec.Key
 /-- op "hist": c = {"ops": [...]}; impl i = {"outs": [...], "snaps": [snapshot | null per op]} -/
 def handle (op : String) (c i : Json) : Except String (Json × String) := do
   match op with
+  | "hdr" =>
+    -- c = {"frames": [[handle, header id | null], ...], "q": header id}; i = {"ret": handle | null | "raised"}
+    let fs ← (← J.arr (← J.key c "frames")).mapM fun f => do pure ((← J.nat (← J.idx f 0)), (← J.optNat (← J.idx f 1)))
+    let q ← J.nat (← J.key c "q")
+    let want := J.ofOptNat (byHeaderId fs q)
+    let got := J.keyD i "ret" Json.null
+    pure (J.obj [("ret", want)], if got == want then "ok" else
+      if J.isNull got then "fail: a frame with the requested header id is in the matrix but was not found"
+      else "fail: the lookup by header id returned a frame that does not carry the id (or not the first one)")
   | "hist" =>
     let ops ← (← J.arr (← J.key c "ops")).mapM opOf
     let (_, outs) := run {} ops
